@@ -179,9 +179,11 @@ def check_refs(case, agg):
         # the second member looks at its own group's variables while the group is still running
         src_texts.append('~ id: other ~ $[1*][ @other_v = #0 @peek = $src.variables.total @late = line_number() yes() ]')
     cs.paths_manager.add_named_paths(name="src", paths=src_texts)
-    use = '~ id: use ~ $[1*][ @t = $src.variables.total @lc = $src.variables.last_c @k = $src.variables.by.k @st = $src.variables.seen ' + ("@hv = $src.headers.b.src " if two else "@hv = $src.headers.b ") + "]"
+    use = '~ id: use ~ $[1*][ @t = $src.variables.total @lc = $src.variables.last_c @k = $src.variables.by.k @st = $src.variables.seen ' + ("@hv = $src.headers.b.src @hl = $src.headers.c.src @hf = $src.headers.a.src " if two else "@hv = $src.headers.b @hl = $src.headers.c @hf = $src.headers.a ") + "]"
     cs.paths_manager.add_named_paths(name="user", paths=[use])
-    cs.paths_manager.add_named_paths(name="replay", paths=["~ id: rp ~ $[*][yes()]"])
+    # (the replaying group's name starts with the referenced group's name, and its first replay starts in the same
+    # second as the run it refers to: the two run directories have the same name under different groups)
+    cs.paths_manager.add_named_paths(name="src_replay", paths=["~ id: rp ~ $[*][yes()]"])
     c10._NOW["t"] = c10.START
     last = None
     w = {"runs": [], "two_members": two}
@@ -191,6 +193,7 @@ def check_refs(case, agg):
         cps.add_file(cs, f"f{k}", rows, srcname=f"f{k}.csv")
         c10._NOW["t"] = c10.advance(c10._NOW["t"], "+1s")
         lines, exc = cps.run_method(cs, case["method"], "src", f"f{k}")
+        t_src_last = c10._NOW["t"]
         if exc is not None:
             w["exc"] = f"{type(exc).__name__}: {str(exc)[:200]}"
             return "referenced-run-raises", w
@@ -240,13 +243,15 @@ def check_refs(case, agg):
             return "undecided", None
         return "reference-error", w
     got = ures.csvpath.variables
-    agg.count("references_checked", 5)
+    agg.count("references_checked", 7)
     want = {
         "t": last["vars"].get("total"),
         "lc": last["vars"].get("last_c"),
         "k": (last["vars"].get("by") or {}).get("k"),
         "st": last["vars"].get("seen"),
         "hv": [ln[1].strip() for ln in last["collected"]],
+        "hl": [ln[2].strip() for ln in last["collected"]],  # the last column
+        "hf": [ln[0].strip() for ln in last["collected"]],  # the first column
     }
     for name, v in want.items():
         g = got.get(name)
@@ -258,13 +263,17 @@ def check_refs(case, agg):
     # ---- (c) results reference used as the file name
     if case["method"] in ("collect_paths", "collect_by_line"):
         rds = cps.run_dirs("src")
-        scenarios = [(":last", rds[-1], "replay"), (":first", rds[0], "replay")]
+        scenarios = [(":last", rds[-1], "src_replay"), (":first", rds[0], "src_replay")]
         if not two:
             # a replay inside the referenced group itself: the run in progress is not its own ':last'
             scenarios.append((":last", rds[-1], "src"))
         for which, pick, runner in scenarios:
             ref = f"$src.results.2025-03-{which}.src"
-            c10._NOW["t"] = c10.advance(c10._NOW["t"], "+1s")
+            if runner == "src_replay" and which == ":last":
+                later = c10._NOW["t"]
+                c10._NOW["t"] = t_src_last  # same second as the most recent run of the referenced group
+            else:
+                c10._NOW["t"] = c10.advance(max(c10._NOW["t"], later), "+1s")
             with hooks.recording(agg) as rec2:
                 lines, exc = cps.run_method(cs, "collect_paths", runner, ref)
             if exc is not None:
